@@ -302,30 +302,28 @@ def main(run):
         add("CCons %s %s %s %s" % (czl(w), cfs(va, ca), cfs(vb, cb), cbl(obs)), case)
 
     # ---- histories on one ConstrainedFitness (assign / delete / record a violation), observed after every step
-    for _ in range(run.scale(300, 3000)):
-        n = rng.randint(1, 2)
-        w = [rng.choice([1, -1]) for _ in range(n)]
+    def cons_history(w, rv, rc, plan):
+        """plan: list of ("set", values) | ("del",) | ("viol", None | list of bool).  After EVERY step the fitness is
+        compared both ways with `ref` (so whatever an implementation remembers from a comparison is remembered)."""
+        n = len(w)
         f = mk(w, None, None, True)
-        rv = None if rng.random() < 0.3 else [rng.randint(0, 2) for _ in range(n)]
-        rc = rng.choice([None, None, [False] * n, [True] + [False] * (n - 1)])
         ref = mk(w, rv, rc, True)
         ops, obs, pyobs = [], [], []
         assigned = False
-        pool = {}
-        for _ in range(rng.randint(1, 6)):
-            r = rng.random()
-            if r < 0.35:
-                v = [rng.randint(0, 1) for _ in range(n)] if rng.random() < 0.5 else [rng.randint(0, 2) for _ in range(n)]
-                f.values = pool.setdefault(tuple(v), tuple(float(x) for x in v))
+        vpool = {}
+        for st in plan:
+            if st[0] == "set":
+                v = st[1]
+                f.values = vpool.setdefault(tuple(v), tuple(float(x) for x in v))     # the same tuple object is re-assigned
                 ops.append("(CSet %s)" % czl(v))
                 assigned = True
-            elif r < 0.65:
+            elif st[0] == "del":
                 del f.values
                 ops.append("CDel")
                 assigned = False
             else:
-                c = rng.choice([None, [False] * n, [True] + [False] * (n - 1), [False] * (n - 1) + [True]])
-                f.constraint_violation = c
+                c = st[1]
+                f.constraint_violation = None if c is None else list(c)
                 ops.append("(CViol %s)" % copt(c, cbl))
             six = [bool(op(f, ref)) for op in ops6] + [bool(f.dominates(ref))]
             rsix = [bool(op(ref, f)) for op in ops6] + [bool(ref.dominates(f))]
@@ -347,5 +345,29 @@ def main(run):
                                      {"kind": "cons-history", "weights": w, "ops": list(ops), "ref": [rv, rc]}, observed=o)
         case = {"kind": "cons-history", "weights": w, "ops": ops, "ref": [rv, rc], "observed": pyobs}
         add("CConsHist %s %s %s %s" % (czl(w), clist(ops), cfs(rv, rc), clist(obs)), case)
+
+    # exhaustive: every history of up to 3 (thorough: 4) steps over {assign 0, assign 1, delete, violation None / [False] /
+    # [True]} on a one-objective fitness, against a violating, a feasible evaluated and an unevaluated reference
+    import itertools as _it
+    alphabet = [("set", [0]), ("set", [1]), ("del",), ("viol", None), ("viol", [False]), ("viol", [True])]
+    for ln in range(1, run.scale(3, 4) + 1):
+        for plan in _it.product(alphabet, repeat=ln):
+            for rv, rc in (([1], None), (None, [True]), (None, None)):
+                cons_history([rng.choice([1, -1])], rv, rc, list(plan))
+    for _ in range(run.scale(300, 3000)):
+        n = rng.randint(1, 2)
+        w = [rng.choice([1, -1]) for _ in range(n)]
+        rv = None if rng.random() < 0.3 else [rng.randint(0, 2) for _ in range(n)]
+        rc = rng.choice([None, None, [False] * n, [True] + [False] * (n - 1)])
+        plan = []
+        for _ in range(rng.randint(1, 6)):
+            r = rng.random()
+            if r < 0.35:
+                plan.append(("set", [rng.randint(0, 1) for _ in range(n)] if rng.random() < 0.5 else [rng.randint(0, 2) for _ in range(n)]))
+            elif r < 0.65:
+                plan.append(("del",))
+            else:
+                plan.append(("viol", rng.choice([None, [False] * n, [True] + [False] * (n - 1), [False] * (n - 1) + [True]])))
+        cons_history(w, rv, rc, plan)
 
     run.correspond("all", "C01", terms, cases)
